@@ -25,8 +25,9 @@ def is_lfs_envelope(value: bytes | None) -> bool:
         return False
     if value[:1] != b"{":
         return False
-    prefix = value[:50].decode("utf-8", errors="ignore")
-    return "\"kfs_lfs\"" in prefix
+    # Compare bytes: decoding with errors="ignore" would drop invalid UTF-8
+    # bytes and could make the marker appear where it is not present.
+    return b"\"kfs_lfs\"" in value[:50]
 
 
 def decode_envelope(value: bytes) -> LfsEnvelope:
